@@ -317,6 +317,15 @@ func c01GenCase(t *rapid.T, mode string) *c01Case {
 		c.Classes["reorder-scenario"] = true
 	}
 	forced := map[string]bool{}
+	vtepSlots := []string{"node/" + c01Remote, "hostcfg/" + c01Remote + "/IPv4VXLANTunnelAddr", "hostcfg/" + c01Remote + "/VXLANTunnelMACAddr",
+		"pool/10.0.0.0-16", "block/10.0.1.0-29"}
+	if focus == "vxlan" && c.Conf.RouteSource == "CalicoIPAM" && rapid.IntRange(0, 2).Draw(t, "vtepScenario") > 0 {
+		c.U.VTEPScenario = true
+		c.Classes["vtep-scenario"] = true
+		for _, n := range vtepSlots {
+			forced[n] = true
+		}
+	}
 	if c.U.ReorderOn {
 		for _, n := range []string{"wep/l1", "proflabels/p1", "proflabels/p2", "policy/g1"} {
 			forced[n] = true
@@ -361,6 +370,9 @@ func c01GenCase(t *rapid.T, mode string) *c01Case {
 			continue
 		}
 		nver := rapid.IntRange(1, 3).Draw(t, "nver."+s.Name)
+		if c.U.VTEPScenario && forced[s.Name] && nver < 2 {
+			nver = 2
+		}
 		for v := 0; v < nver; v++ {
 			c.Vers[i] = append(c.Vers[i], s.Gen(t, c.U, fmt.Sprintf("%s.v%d", s.Name, v)))
 		}
@@ -487,7 +499,8 @@ func c01GenCase(t *rapid.T, mode string) *c01Case {
 	}
 	// Initial snapshot: most histories start like a real Felix does, with a populated datastore
 	// delivered in arbitrary order, so that teardown / churn moves have something to act on.
-	if len(used) > 0 && rapid.IntRange(0, 3).Draw(t, "startPopulated") > 0 {
+	forceFlush := map[int]bool{} // index into flat: a flush follows this update
+	if len(used) > 0 && (rapid.IntRange(0, 3).Draw(t, "startPopulated") > 0 || c.U.VTEPScenario) {
 		c.Classes["initial-snapshot"] = true
 		order := used
 		if len(used) > 1 {
@@ -496,9 +509,50 @@ func c01GenCase(t *rapid.T, mode string) *c01Case {
 		for _, slot := range order {
 			nver := len(c.Vers[slot])
 			v := rapid.IntRange(-1, 3*nver-1).Draw(t, "initial."+c.U.Slots[slot].Name)
+			if v < 0 && c.U.VTEPScenario && forced[c.U.Slots[slot].Name] && !strings.Contains(c.U.Slots[slot].Name, "MACAddr") {
+				v = 0
+			}
 			if v >= 0 {
 				emit(slot, v%nver, "snapshot")
 			}
+		}
+		if c.U.VTEPScenario && len(flat) > 0 {
+			// Flush the snapshot (VTEP of rhost and the block route via rhost reach the dataplane), then
+			// modify the VTEP inside one flush window and flush again.
+			forceFlush[len(flat)-1] = true
+			slotIdx := func(name string) int {
+				for i, s := range c.U.Slots {
+					if s.Name == name {
+						return i
+					}
+				}
+				panic("HARNESS-GAP: no slot " + name)
+			}
+			nmods := rapid.IntRange(1, 2).Draw(t, "vtepMods")
+			for k := 0; k < nmods; k++ {
+				l := fmt.Sprintf("vtepMod[%d]", k)
+				switch rapid.SampledFrom([]string{"tunnel-addr", "mac", "node-blip", "node-change"}).Draw(t, l) {
+				case "tunnel-addr":
+					s := slotIdx(vtepSlots[1])
+					emit(s, (cur[s]+1)%len(c.Vers[s]), "vtepmod")
+				case "mac":
+					s := slotIdx(vtepSlots[2])
+					if _, ok := cur[s]; ok {
+						emit(s, -1, "vtepmod")
+					} else {
+						emit(s, 0, "vtepmod")
+					}
+				case "node-blip":
+					s := slotIdx(vtepSlots[0])
+					v := cur[s]
+					emit(s, -1, "vtepmod")
+					emit(s, v, "vtepmod")
+				default:
+					s := slotIdx(vtepSlots[0])
+					emit(s, (cur[s]+1)%len(c.Vers[s]), "vtepmod")
+				}
+			}
+			forceFlush[len(flat)-1] = true
 		}
 	}
 	maxWalk := ev.Scale(24, 40)
@@ -668,6 +722,9 @@ func c01GenCase(t *rapid.T, mode string) *c01Case {
 			gap = rapid.SampledFrom([]int{0, 0, 0, 1, 1, 1, 1, 2}).Draw(t, fmt.Sprintf("gap[%d]", i))
 		default:
 			gap = rapid.IntRange(0, 1).Draw(t, fmt.Sprintf("gap[%d]", i))
+		}
+		if forceFlush[i] {
+			gap = 2
 		}
 		if gap >= 1 {
 			closeBatch()
@@ -966,6 +1023,9 @@ func c01ClassList(c *c01Case, r *c01Result) []string {
 	}
 	if m.NumVTEPRouteDelFlushes > 0 {
 		cls = append(cls, "stream-vtep-and-dependent-route-removed-in-one-flush")
+	}
+	if m.NumVTEPModifiedWithLiveRoute > 0 {
+		cls = append(cls, "vtep-modified-with-live-route")
 	}
 	if m.FlushReAdds > 0 {
 		cls = append(cls, "stream-remove-then-readd-in-one-flush")
